@@ -105,6 +105,49 @@ def generate(seed, tier):
     return {"io": simfs.IoConfig.draw(swarm), "cid": spec, "datasets": datasets, "ops": ops}
 
 
+# ---- bounded sweep: every history of up to 4 runs over a fixed pool of run kinds -----------------------
+SWEEP_POOL = [
+    {"op": "read", "data": "A", "api": "Reader", "mode": "raise", "stop_after": None, "close": "now", "source": "path", "create": "late"},
+    {"op": "read", "data": "B", "api": "Reader", "mode": "raise", "stop_after": None, "close": "now", "source": "path", "create": "late"},
+    {"op": "read", "data": "B", "api": "rows", "mode": "yield", "stop_after": None, "close": "now", "source": "stream", "create": "late"},
+    {"op": "read", "data": "A", "api": "Reader", "mode": "raise", "stop_after": 1, "close": "now", "source": "path", "create": "late"},
+    {"op": "read", "data": "A", "api": "rows", "mode": "continue", "stop_after": 1, "close": "never", "source": "path", "create": "late"},
+    {"op": "read", "data": "A", "api": "Reader", "mode": "raise", "stop_after": None, "close": "never", "source": "path", "create": "late"},
+    {"op": "read", "data": "A", "api": "validate", "mode": "raise", "stop_after": None, "close": "now", "source": "path", "create": "late"},
+    {"op": "write", "data": "A", "close": True, "target": "path"},
+    {"op": "write", "data": "A", "close": False, "target": "stream"},
+    {"op": "write", "data": "B", "close": True, "target": "stream"},
+]
+SWEEP_EXHAUSTIVE_NOTE = ("bounded sweep: every history of 1-4 runs over a pool of 10 run kinds (read clean file, read file "
+                         "with duplicate in raise and yield mode, read and abandon after 1 row with and without close, "
+                         "read without close, validate, write and close, write without close, write with a rejected row) "
+                         "on data sets sharing key values, delimited format: 11 110 histories, complete")
+SWEEP_BATCH = 300
+
+
+def sweep_size(tier):
+    return sum(len(SWEEP_POOL) ** length for length in range(1, 5))
+
+
+def sweep_slice(tier, start, count):
+    import copy as _copy
+
+    base = len(SWEEP_POOL)
+    for number in range(start, min(start + count, sweep_size(tier))):
+        length, offset = 1, number
+        while offset >= base ** length:
+            offset -= base ** length
+            length += 1
+        ops = []
+        for _ in range(length):
+            offset, digit = divmod(offset, base)
+            ops.append(_copy.deepcopy(SWEEP_POOL[digit]))
+        yield {"property": ID, "sweep": True, "io": {"regime": "whole"},
+               "cid": {"format": "delimited", "header": 0, "sep": ":",
+                       "checks": [["u", "IsUnique", "id"], ["dc", "DistinctCount", "name <= 2"]]},
+               "datasets": {"A": [["1", "a"], ["2", "b"]], "B": [["1", "a"], ["1", "c"], ["3", "b"]]}, "ops": ops}
+
+
 def _data_bytes(spec, table):
     if spec["format"] == "fixed":
         return lib.render_fixed(table, [1, 2], "\n").encode("utf-8")
